@@ -204,7 +204,7 @@ def rand_seq_prog(rng, kind, cap, length, malformed=False):
 def seq_random(ctx, tsk):
     rng = ctx.rng
     runs = []
-    per = 60 if ctx.quick else 600
+    per = 60 if ctx.quick else 1500
     for kind in (tsk, "sowr", "ring", "ringts"):
         for i in range(per):
             cap = rng.choice([1, 2, 2, 3, 4, 4, 5, 8, 8, 16])
@@ -308,7 +308,7 @@ def budget_prog(rng, length, budget, ops):
 def conc_runs(ctx, tsk):
     rng = ctx.rng
     runs = []
-    per = 120 if ctx.quick else 2500
+    per = 120 if ctx.quick else 6000
     # thread-safe pool: any thread allocates / frees, blocks handed between threads through the bag
     for i in range(per * 2):
         cap = rng.choice([2, 2, 4, 4, 4, 8])
